@@ -20,6 +20,11 @@ Notation count_kind := (count_kind folder id folder_eqb).
 Notation count_favs := (count_favs folder id).
 Notation count_tag := (count_tag folder id).
 Notation is_arch := (is_arch folder id folder_eqb).
+Notation in_folder := (in_folder folder id folder_eqb).
+Notation ix_remove_vault := (ix_remove_vault folder id folder_eqb id_eqb).
+Notation ix_add_folder := (ix_add_folder folder id folder_eqb id_eqb).
+Notation ix_force := (ix_force folder id folder_eqb id_eqb).
+Notation ix_forget := (ix_forget folder id folder_eqb id_eqb).
 
 Section Counters.
 Variable K : Type.
@@ -196,5 +201,97 @@ Proof.
   unfold Search.ix_remove, Search.has_doc. destruct (find (same_key f i) (docs _ _ x)) as [d|] eqn:E.
   - cbn [docs]. apply existsb_filter_neg.
   - apply find_none_existsb. exact E.
+Qed.
+(* ---- whole-folder operations: remove_vault, add_folder, forced overwrite, forget ---- *)
+Lemma fold_remove_inv f l x : Inv x -> Inv (fold_left (fun y (d : doc) => ix_remove y f (d_id _ _ d)) l x).
+Proof. revert x. induction l as [|d l IH]; intros x H; cbn [fold_left]; [exact H|]. apply IH, remove_inv, H. Qed.
+Theorem remove_vault_inv x f : Inv x -> Inv (ix_remove_vault x f).
+Proof. apply fold_remove_inv. Qed.
+Theorem add_folder_inv ds x : Inv x -> Inv (ix_add_folder x ds).
+Proof. unfold Search.ix_add_folder. revert x. induction ds as [|d ds IH]; intros x H; cbn [fold_left]; [exact H|]. apply IH, add_inv, H. Qed.
+Theorem force_inv x f ds : Inv x -> Inv (ix_force x f ds).
+Proof. intro H. apply add_folder_inv, remove_vault_inv, H. Qed.
+
+Lemma filter_all_true (A : Type) (p : A -> bool) l : (forall a, In a l -> p a = true) -> filter p l = l.
+Proof.
+  induction l as [|a l IH]; intro H; [reflexivity|]. cbn [filter]. rewrite (H a (or_introl eq_refl)).
+  f_equal. apply IH. intros b Hb. apply H. right. exact Hb.
+Qed.
+Lemma find_none_all (A : Type) (p : A -> bool) l : find p l = None -> forall a, In a l -> p a = false.
+Proof.
+  induction l as [|b l IH]; [intros _ a []|]. cbn [find]. destruct (p b) eqn:E; [discriminate|].
+  intros H a [<-|Ha]; [exact E|]. apply IH; assumption.
+Qed.
+Lemma remove_docs x f i : docs _ _ (ix_remove x f i) = filter (fun e => negb (same_key f i e)) (docs _ _ x).
+Proof.
+  unfold Search.ix_remove. destruct (find (same_key f i) (docs _ _ x)) as [d|] eqn:E; [reflexivity|].
+  symmetry. apply filter_all_true. intros a Ha. rewrite (find_none_all _ _ _ E a Ha). reflexivity.
+Qed.
+Lemma remove_archive x f i : ix_archive _ _ (ix_remove x f i) = ix_archive _ _ x.
+Proof. unfold Search.ix_remove. destruct (find _ _); reflexivity. Qed.
+Lemma add_archive x d : ix_archive _ _ (ix_add x d) = ix_archive _ _ x.
+Proof. unfold Search.ix_add. destruct (has_doc _ _ x); reflexivity. Qed.
+
+Lemma fold_remove_docs f l x :
+  docs _ _ (fold_left (fun y (d : doc) => ix_remove y f (d_id _ _ d)) l x)
+  = filter (fun e => negb (existsb (fun d : doc => same_key f (d_id _ _ d) e) l)) (docs _ _ x).
+Proof.
+  revert x. induction l as [|d l IH]; intro x; cbn [fold_left existsb].
+  - symmetry. apply filter_all_true. reflexivity.
+  - rewrite IH, remove_docs. clear IH. induction (docs _ _ x) as [|e r IHr]; [reflexivity|]. cbn [filter].
+    destruct (same_key f (d_id _ _ d) e) eqn:E; cbn [negb orb]; [exact IHr|].
+    cbn [filter]. destruct (existsb _ l); cbn [negb]; [exact IHr|]. f_equal. exact IHr.
+Qed.
+
+(* after remove_vault exactly the documents of the other folders remain, in their order *)
+Theorem remove_vault_docs x f :
+  docs _ _ (ix_remove_vault x f) = filter (fun e => negb (in_folder f e)) (docs _ _ x).
+Proof.
+  unfold Search.ix_remove_vault. rewrite fold_remove_docs. apply filter_ext_in. intros e He. f_equal.
+  destruct (in_folder f e) eqn:Ef.
+  - apply existsb_exists. exists e. split; [apply filter_In; split; assumption|].
+    unfold Search.same_key. unfold Search.in_folder in Ef. rewrite Ef. apply id_eqb_spec. reflexivity.
+  - destruct (existsb _ _) eqn:Ex; [|reflexivity]. apply existsb_exists in Ex. destruct Ex as (d & _ & Hd).
+    unfold Search.same_key in Hd. apply andb_true_iff in Hd. unfold Search.in_folder in Ef. destruct Hd as [Hd _]. congruence.
+Qed.
+Theorem forget_gone x f d : In d (docs _ _ (ix_forget x f)) -> in_folder f d = false.
+Proof.
+  unfold Search.ix_forget. rewrite remove_vault_docs. intro H. apply filter_In in H. destruct H as [_ H].
+  destruct (in_folder f d); [discriminate|reflexivity].
+Qed.
+
+(* add_folder appends the documents when none of them is already present and their ids differ *)
+Lemma add_folder_docs ds : forall x,
+  (forall d, In d ds -> has_doc (d_folder _ _ d) (d_id _ _ d) x = false) ->
+  NoDup (map (fun d : doc => (d_folder _ _ d, d_id _ _ d)) ds) ->
+  docs _ _ (ix_add_folder x ds) = docs _ _ x ++ ds.
+Proof.
+  unfold Search.ix_add_folder. induction ds as [|d ds IH]; intros x Hnew Hnd; cbn [fold_left]; [rewrite app_nil_r; reflexivity|].
+  inversion Hnd as [|k ks Hk Hnd']; subst.
+  assert (docs _ _ (ix_add x d) = docs _ _ x ++ [d]) as Hd.
+  { unfold Search.ix_add. rewrite (Hnew d (or_introl eq_refl)). reflexivity. }
+  rewrite IH; [rewrite Hd, <- app_assoc; reflexivity| |exact Hnd'].
+  intros e He. unfold Search.has_doc. rewrite Hd, existsb_app. cbn [existsb]. rewrite orb_false_r.
+  apply orb_false_iff. split; [apply (Hnew e (or_intror He))|].
+  unfold Search.same_key. destruct (folder_eqb (d_folder _ _ d) (d_folder _ _ e)) eqn:E1; [|reflexivity].
+  destruct (id_eqb (d_id _ _ d) (d_id _ _ e)) eqn:E2; [|reflexivity]. exfalso. apply Hk.
+  apply folder_eqb_spec in E1. apply id_eqb_spec in E2. rewrite E1, E2.
+  apply (in_map (fun d : doc => (d_folder _ _ d, d_id _ _ d)) ds e He).
+Qed.
+
+(* a forced overwrite leaves exactly: the other folders' documents, then the folder's new contents *)
+Theorem force_docs x f ds :
+  (forall d, In d ds -> d_folder _ _ d = f) -> NoDup (map (d_id _ _) ds) ->
+  docs _ _ (ix_force x f ds) = filter (fun e => negb (in_folder f e)) (docs _ _ x) ++ ds.
+Proof.
+  intros Hf Hnd. unfold Search.ix_force. rewrite add_folder_docs, remove_vault_docs; [reflexivity| |].
+  - intros d Hd. unfold Search.has_doc. rewrite remove_vault_docs.
+    destruct (existsb _ _) eqn:Ex; [|reflexivity]. apply existsb_exists in Ex. destruct Ex as (e & He & Hk).
+    apply filter_In in He. destruct He as [_ He]. unfold Search.same_key in Hk. apply andb_true_iff in Hk.
+    destruct Hk as [Hk _]. unfold Search.in_folder in He. rewrite (Hf d Hd) in Hk. rewrite Hk in He. discriminate.
+  - clear -Hf Hnd. induction ds as [|d ds IH]; [constructor|]. cbn [map] in *. inversion Hnd as [|k ks Hk Hnd']; subst.
+    constructor; [|apply IH; [intros e He; apply Hf; right; exact He|exact Hnd']].
+    intro Hin. apply in_map_iff in Hin. destruct Hin as (e & Heq & He). apply Hk. injection Heq as _ Hid.
+    rewrite <- Hid. apply in_map. exact He.
 Qed.
 End SearchLemmas.
